@@ -271,6 +271,8 @@ func init() {
 			}
 			return ex.tt.Bool(validUTF8(s))
 		},
+		"internal/stringslite.Clone": func(ex *Exec, fn *ssa.Function, a []Value) Value { return a[0] },
+		"strings.Clone":              func(ex *Exec, fn *ssa.Function, a []Value) Value { return a[0] },
 		"(*strings.Builder).copyCheck": noop,
 		"internal/abi.NoEscape":       func(ex *Exec, fn *ssa.Function, a []Value) Value { return a[0] },
 		"(*strings.Builder).String": func(ex *Exec, fn *ssa.Function, a []Value) Value {
